@@ -13,7 +13,7 @@ pub static PROP: Prop = Prop {
     title: "Sequential composition is exactly the gluing (pushout) of the two diagrams",
     check,
     max_tape: (220, 420),
-    cases: (60_000, 1_200_000),
+    cases: (150_000, 1_500_000),
     both_profiles: false,
     rule: "pairs (f,g) of generated well-formed diagrams, g's source interface re-attached to have f's target type (85%) or perturbed to mismatch (15%); non-trivial = types match, shared boundary length >= 1 and at least one hyperedge in f or g; distinct = hash of (f,g)",
     assumptions: &[
